@@ -19,7 +19,7 @@ def make_case(cid, rnd):
     used_groups, used_sdo = set(), set()
     coes = [i for i, d in enumerate(devs) if d["kind"] == "coe"]
     for _ in range(ntasks):
-        kinds = ["register_read"]
+        kinds = ["register_read", "register_read_cancel"]
         free_groups = [g for g in range(min(groups, ndev)) if g not in used_groups]
         if free_groups:
             kinds += ["tx_rx", "tx_rx"]
@@ -31,6 +31,8 @@ def make_case(cid, rnd):
             g = rnd.choice(free_groups)
             used_groups.add(g)
             tasks.append(dict(op="tx_rx", group=g, cycles=rnd.randint(2, 6)))
+        elif k == "register_read_cancel":
+            tasks.append(dict(op="register_read_cancel", device=rnd.randrange(ndev), reg=rnd.choice([0x0010, 0x0130, 0x0000]), count=rnd.randint(1, 4)))
         elif k == "register_read":
             tasks.append(dict(op="register_read", device=rnd.randrange(ndev), reg=rnd.choice([0x0010, 0x0130, 0x0000, 0x0008]), count=rnd.randint(2, 6)))
         elif k == "sdo_read":
